@@ -258,6 +258,13 @@ func c01Gen(r *rand.Rand, tier string) any {
 				}
 				op := opSpec{Op: "bump-req", Item: fmt.Sprint(e), N: shadow.Exts[e].Sel + 1 + r.IntN(len(extVersions)-1)}
 				shadow.applySpecEdit(&op)
+				if r.IntN(4) == 0 {
+					// the version the requirement moved to cannot be fetched when the project is
+					// reloaded (the network is down); the next reload, with the network back and
+					// dawn.toml untouched, must pick the new version up
+					sc.Ops = append(sc.Ops, op, opSpec{Op: "build", Label: label, Reload: true, NetFailAt: 1 + r.IntN(3)}, opSpec{Op: "build", Label: label, Reload: true})
+					continue
+				}
 				sc.Ops = append(sc.Ops, op, opSpec{Op: "build", Label: label, Reload: r.IntN(2) == 0})
 			}
 			return sc
@@ -287,6 +294,7 @@ func c01Exec(scAny any, c *simcheck.Ctx) *simcheck.Violation {
 		return simcheck.V(simcheck.EngineError, "setup: %v", err)
 	}
 	defer h.cleanup()
+	h.keepFailedReload = true // as Watch does: a project whose reload failed is reloaded again
 	firstProcess := true
 	lastGood := ""
 	for i := range sc.Ops {
@@ -322,6 +330,10 @@ func c01Exec(scAny any, c *simcheck.Ctx) *simcheck.Violation {
 			}
 			c.St.Count("process_failure_"+v.Class, 1)
 			return nil // crashes, deadlocks: decided by C03/C05/C06/C08
+		}
+		if res.LoadErr != nil && op.NetFailAt > 0 && h.w.netFaults > 0 && !firstProcess {
+			c.St.Count("loads_failed_while_the_network_was_down", 1)
+			continue
 		}
 		if res.LoadErr != nil {
 			if firstProcess {
